@@ -332,6 +332,11 @@ func runC18(w *W) {
 		c18Scenario{"chain open close", abc, chain, []string{"open a svc", "adtick", "close a svc", "adtick"}, d, false},
 		c18Scenario{"chain open close reopen", abc, chain, []string{"open a svc", "adtick", "close a svc", "open a svc", "adtick"}, d, false},
 		c18Scenario{"triangle two services on two nodes", abc, tri, []string{"open a svc", "open b svc2", "adtick", "close a svc", "adtick"}, 1, false},
+		// flood() hands every message to its own goroutine per link, so an advertisement and the withdrawal that
+		// follows it may be written to one link in either order: bag links
+		c18Scenario{"pair open close (bag)", []string{"a", "b"}, [][2]string{{"a", "b"}}, []string{"open a svc", "adtick", "close a svc"}, 2, true},
+		c18Scenario{"chain open close (bag)", abc, chain, []string{"open a svc", "adtick", "close a svc"}, d, true},
+		c18Scenario{"chain open close reopen (bag)", abc, chain, []string{"open a svc", "adtick", "close a svc", "open a svc", "adtick"}, 1, true},
 		c18Scenario{"late joiner", []string{"a", "b", "c"}, [][2]string{{"a", "b"}}, []string{"open a svc", "adtick", "join b c", "adtick"}, d, false},
 		c18Scenario{"late joiner after close", []string{"a", "b", "c"}, [][2]string{{"a", "b"}}, []string{"open a svc", "adtick", "close a svc", "join b c", "adtick"}, d, false},
 	)
@@ -353,7 +358,7 @@ func init() {
 	register(&PropSpec{
 		ID:        "C18",
 		Level:     "model_checking",
-		Technique: "stateless deviation-bounded DFS with state-hash pruning over delivery orders of service advertisements and withdrawals between real Netceptor nodes in a synctest bubble (links FIFO with held links spanning events; thorough: bag links); monitors after every delivery, listing compared with the open services after a bounded closure",
+		Technique: "stateless deviation-bounded DFS with state-hash pruning over delivery orders of service advertisements and withdrawals between real Netceptor nodes in a synctest bubble (links FIFO with held links spanning events, and bag links — any in-flight message next — on a pair and a chain; thorough: bag links on the triangle); monitors after every delivery, listing compared with the open services after a bounded closure",
 		Rule: "scenarios on a triangle, a 3-chain and a late joiner: open / close / reopen of advertised services on one or two nodes, advertisement ticks, link up of the joiner; every schedule of the advertisement messages with <=2 deviations (deliver another link first, hold a link — also across the next event —, fire the next event early); routing messages are delivered canonically. " +
 			"Monitors: a listed time stamp never decreases; after a node processed a withdrawal with time T it never lists that service with a time <= T; after closure (all in flight, bounded by 200 deliveries, + 3 advertisement periods) every node lists exactly the open advertised services of reachable nodes with tags and type. A case is one scenario part; non-trivial = at least one choice point. " +
 			"Plus: a Close of an advertised service placed inside an advertisement round (between the sends of the round, using the log call as the seam) for 2 and 3 services, every position, both delivery orders.",
